@@ -205,3 +205,47 @@ func cmdRegoPaths(args []string) {
 	}
 	fmt.Println(len(paths), "paths", by, time.Since(t0))
 }
+
+// runShapes checks the result-shape / location / message obligations for every program.
+func runShapes(work string, progs []regosym.Program, scope func(regosym.Program) regosym.Scope, opts regosym.ShapeOptions, workers int) ([]regosym.Outcome, error) {
+	drv, err := regosym.BuildDriver(repoDir, verifDir(), work)
+	if err != nil {
+		return nil, err
+	}
+	texts := make([]string, len(progs))
+	for i, p := range progs {
+		texts[i] = p.ProfileYAML()
+	}
+	gens, err := drv.Generate(texts)
+	if err != nil {
+		return nil, err
+	}
+	outs := make([]regosym.Outcome, len(progs))
+	var wg sync.WaitGroup
+	jobs := make(chan int, len(progs))
+	for i := range progs {
+		jobs <- i
+	}
+	close(jobs)
+	for w := 0; w < workers; w++ {
+		wg.Add(1)
+		go func() {
+			defer wg.Done()
+			s, err := smt.NewSolver("z3")
+			if err != nil {
+				return
+			}
+			defer s.Close()
+			c := &regosym.Checker{Drv: drv, Solver: s}
+			for i := range jobs {
+				if gens[i].Error != "" {
+					outs[i] = regosym.Outcome{Program: regosym.DescribeProgram(progs[i]), Profile: texts[i], Status: "generate-error", Label: "C07.module-compiles", Detail: gens[i].Error}
+					continue
+				}
+				outs[i] = c.CheckShapes(progs[i], scope(progs[i]), gens[i].Code, opts)
+			}
+		}()
+	}
+	wg.Wait()
+	return outs, nil
+}
